@@ -236,12 +236,90 @@ func factVariants(facts []Fact) []Fact {
 			Fact{Expr: mk(1, be.X, be.Y, negOp[be.Op]), Truth: !f.Truth},
 			Fact{Expr: mk(2, be.Y, be.X, mirrorOp[be.Op]), Truth: f.Truth},
 			Fact{Expr: mk(3, be.Y, be.X, negOp[mirrorOp[be.Op]]), Truth: !f.Truth})
+		// a length is never negative: len(x) != 0 is len(x) > 0, len(x) == 0 is len(x) <= 0
+		if c, isCall := ast.Unparen(be.X).(*ast.CallExpr); isCall {
+			if id, isId := c.Fun.(*ast.Ident); isId && id.Name == "len" {
+				if lit, isLit := ast.Unparen(be.Y).(*ast.BasicLit); isLit && lit.Value == "0" {
+					op, truth := be.Op, f.Truth
+					if !truth {
+						op, truth = negOp[op], true
+					}
+					switch op {
+					case token.NEQ:
+						out = append(out, Fact{Expr: mk(4, be.X, be.Y, token.GTR), Truth: true}, Fact{Expr: mk(5, be.X, be.Y, token.LEQ), Truth: false})
+					case token.GTR:
+						out = append(out, Fact{Expr: mk(6, be.X, be.Y, token.NEQ), Truth: true}, Fact{Expr: mk(7, be.X, be.Y, token.EQL), Truth: false})
+					case token.EQL:
+						out = append(out, Fact{Expr: mk(4, be.X, be.Y, token.GTR), Truth: false}, Fact{Expr: mk(5, be.X, be.Y, token.LEQ), Truth: true})
+					case token.LEQ:
+						out = append(out, Fact{Expr: mk(6, be.X, be.Y, token.NEQ), Truth: false}, Fact{Expr: mk(7, be.X, be.Y, token.EQL), Truth: true})
+					}
+				}
+			}
+		}
 	}
 	return out
 }
 
 func (f *FCFG) GuardsOfLoc(l Loc) []Fact {
-	return factVariants(f.expandBoolLocals(f.guardsOfLoc(l)))
+	return factVariants(f.expandOperandLocals(f.expandBoolLocals(f.guardsOfLoc(l))))
+}
+
+var operandCache = map[variantKey]*ast.BinaryExpr{}
+
+// expandOperandLocals: in a comparison, an operand that is a local defined
+// exactly once (`n := len(xs)`; `if n == 1`) also stands for its definition.
+func (f *FCFG) expandOperandLocals(facts []Fact) []Fact {
+	if f.Info == nil {
+		return facts
+	}
+	out := facts
+	for _, fc := range facts {
+		if fc.Tag != nil {
+			continue
+		}
+		be, ok := ast.Unparen(fc.Expr).(*ast.BinaryExpr)
+		if !ok {
+			continue
+		}
+		if _, rel := negOp[be.Op]; !rel {
+			continue
+		}
+		nx, ny := be.X, be.Y
+		changed := false
+		for k, side := range []ast.Expr{be.X, be.Y} {
+			id, ok := ast.Unparen(side).(*ast.Ident)
+			if !ok {
+				continue
+			}
+			v, ok := f.Info.ObjectOf(id).(*types.Var)
+			if !ok || v.IsField() {
+				continue
+			}
+			if d := singleDefOf(f.Info, f.Body, v); d != nil {
+				switch ast.Unparen(d).(type) {
+				case *ast.CallExpr, *ast.SelectorExpr, *ast.IndexExpr:
+					if k == 0 {
+						nx = d
+					} else {
+						ny = d
+					}
+					changed = true
+				}
+			}
+		}
+		if !changed {
+			continue
+		}
+		key := variantKey{be, 9}
+		nb := operandCache[key]
+		if nb == nil {
+			nb = &ast.BinaryExpr{X: nx, OpPos: be.OpPos, Op: be.Op, Y: ny}
+			operandCache[key] = nb
+		}
+		out = append(out, Fact{Expr: nb, Truth: fc.Truth})
+	}
+	return out
 }
 
 // expandBoolLocals: a fact about a boolean local that is defined exactly once
@@ -267,6 +345,7 @@ func (f *FCFG) expandBoolLocals(facts []Fact) []Fact {
 				continue
 			}
 			var def ast.Expr
+			var assertion *ast.TypeAssertExpr
 			n := 0
 			ast.Inspect(f.Body, func(x ast.Node) bool {
 				switch y := x.(type) {
@@ -276,6 +355,8 @@ func (f *FCFG) expandBoolLocals(facts []Fact) []Fact {
 							n++
 							if len(y.Lhs) == len(y.Rhs) {
 								def = y.Rhs[i]
+							} else if ta, isTA := ast.Unparen(y.Rhs[0]).(*ast.TypeAssertExpr); isTA && len(y.Lhs) == 2 && len(y.Rhs) == 1 && i == 1 && ta.Type != nil {
+								assertion = ta // v, ok := x.(T): ok says "the dynamic type of x is T"
 							} else {
 								def = nil
 								n += 10
@@ -298,6 +379,10 @@ func (f *FCFG) expandBoolLocals(facts []Fact) []Fact {
 				}
 				return true
 			})
+			if n == 1 && assertion != nil {
+				add = append(add, Fact{Expr: assertion.Type, Truth: fc.Truth, Tag: assertion.X})
+				continue
+			}
 			if n != 1 || def == nil {
 				continue
 			}
